@@ -80,6 +80,7 @@ type Obs struct {
 
 	SeamCalls  []string
 	FaultFired []string
+	UsedTokens []string // remember-token hashes consumed (UseRememberToken succeeded) during the request
 	Mails      []Mail
 	SMS        []SMSMsg
 	Log        []string
@@ -132,7 +133,7 @@ func (s *Stack) Do(w *World, rq Req) *Obs {
 	w.Mails, w.SMS, w.Log = nil, nil, nil
 	vtime.Set(w.Now)
 	rand.Reader = s.rng
-	s.seamCalls, s.faultFired, s.stateWrites = nil, nil, 0
+	s.seamCalls, s.faultFired, s.stateWrites, s.UsedTokens = nil, nil, 0, nil
 	s.probe = nil
 
 	if rq.Method == "" {
@@ -219,6 +220,7 @@ func (s *Stack) Do(w *World, rq Req) *Obs {
 	o.SessAfter, o.CookAfter = copyMap(b.Session), copyMap(b.Cookies)
 	o.SeamCalls = s.seamCalls
 	o.FaultFired = s.faultFired
+	o.UsedTokens = s.UsedTokens
 	o.Probe = s.probe
 	o.Mails, o.SMS, o.Log = w.Mails, w.SMS, w.Log
 	for _, l := range w.Log {
